@@ -97,11 +97,16 @@ function getPrepareStackTrace (originalPrepareStackTrace) {
     }
 
     const stackLines = error.stack.split('\n')
-    let firstIndex = -1
-    for (let i = 0; i < stackLines.length; i++) {
-      if (stackLines[i].match(/^\s*at/gm)) {
-        firstIndex = i
-        break
+    // the frames are the last lines of the stack, one per call site: the message itself may contain
+    // lines that look like frames (a quoted trace, a wrapped cause)
+    let firstIndex = stackLines.length - structuredStackTrace.length
+    if (firstIndex < 0 || firstIndex >= stackLines.length || !stackLines[firstIndex].match(/^\s*at/)) {
+      firstIndex = -1
+      for (let i = 0; i < stackLines.length; i++) {
+        if (stackLines[i].match(/^\s*at/gm)) {
+          firstIndex = i
+          break
+        }
       }
     }
     return stackLines
